@@ -40,7 +40,7 @@ def strategy(tier):
         doc_kw={"n_ops": (1, 3), "n_frags": (0, 2)},
         ops_kw={"var_p": 0.9, "local_var_names": True, "frag_p": 0.2, "directive_p": 0.15},
         schema_kw={"input_heavy": True, "defaults": 0.3},
-        omit_p=0.62,
+        omit_p=0.62, subscriptions_if_async=True,
     )
 
 
@@ -62,8 +62,6 @@ def run_case(case, scratch):
     failures, nts, units, sample = [], [], 0, None
     for call in case["calls"]:
         op = sess.ops[call["op"]]
-        if op["kind"] == "subscription":
-            continue
         units += 1
         r = sess.call(call)
         if r["problem"]:
@@ -77,6 +75,8 @@ def run_case(case, scratch):
             continue
         body = json.loads(r["request"].content)
         sent = body.get("variables")
+        if sent is None and op["kind"] == "subscription" and "variables" not in body:
+            sent = {}  # the subscribe payload of graphql-transport-ws may omit an empty variables member
         if nontrivial:
             nts.append(hashlib.sha256(json.dumps([case["sdl"], op["name"], call["args"]], sort_keys=True).encode()).hexdigest()[:16])
             if sample is None:
